@@ -7,6 +7,7 @@ import Driver.C15
 import Driver.C12
 import Driver.Shard
 import Driver.Compact
+import Driver.Cluster
 
 /-- one line in, one line out; the handler may carry state -/
 structure Handler where
@@ -24,6 +25,7 @@ def handlers : List (String × Handler) := [
   ("meta", ⟨Driver.MetaD.St, {}, Driver.MetaD.step⟩),
   ("shard", ⟨InfluxVerif.ShardSpec.St, {}, Driver.ShardD.step⟩),
   ("compact", ⟨Driver.CompactD.St, {}, Driver.CompactD.step⟩),
+  ("cluster", ⟨Driver.ClusterD.DSt, {}, Driver.ClusterD.step⟩),
   ("hh", ⟨InfluxVerif.HH.Q, Driver.HHD.init 1024 100000, Driver.HHD.step⟩)
 ]
 
